@@ -1,7 +1,7 @@
 #!/usr/bin/env python3
 """tools/extra.py - the part of the specification that goes beyond the listed properties: the lifecycle
 of the layer4 app (spec/L4App.tla, L4AppTrace.tla), the peers pool across loads (L4Peers) and the tee
-handler's goroutine protocol (L4Tee). Model-checks the lifecycle, runs the real App over loopback
+handler's goroutine protocol (L4Tee), upstreams with placeholders in their dial address (L4Dyn). Model-checks the lifecycle, runs the real App over loopback
 addresses (one of which cannot be bound) and lets TLC judge the observations. Prints OBSERVATION lines; it is
 not a property check and is not registered in MANIFEST.json (exit 0 = ran, 2 = machinery problem)."""
 import json
@@ -79,6 +79,23 @@ def main():
                 log(f"OBSERVATION tee: {c} ({len(by[c])} of {n3} scenarios, e.g. {', '.join(sorted(by[c])[:3])})")
             log(f"{n3} terminal behaviours of the tee model replayed on the real handler and judged by TLC, {len(bad3)} with observations, "
                 f"{sum(1 for b in bad3 if any(c.startswith('E0') for c in b['clauses']))} where the real handler differs from the model")
+            # ---- upstreams with a per-connection placeholder in their dial address (L4Dyn) ----
+            da = run_tlc(tmp, "L4Dyn.tla", "L4Dyn_asis.cfg", timeout=600)
+            daa = run_tlc(tmp, "L4Dyn.tla", "L4Dyn_asis_active.cfg", timeout=600)
+            df = run_tlc(tmp, "L4Dyn.tla", "L4Dyn_fixed.cfg", timeout=600)
+            dfa = run_tlc(tmp, "L4Dyn.tla", "L4Dyn_fixed_active.cfg", timeout=600)
+            tlc_ok(df, "L4Dyn_fixed")
+            tlc_ok(dfa, "L4Dyn_fixed_active")
+            log(f"model: with a placeholder in the dial address a backend is refused for another backend's failures in the model of the code as it is: "
+                f"{any('NeverWronglyRefused' in e for e in da['errors'])}; after one round of active checks every backend is refused: "
+                f"{any('NeverWronglyRefused' in e for e in daa['errors'])}; neither when health is kept per resolved address: True ({df['distinct']} / {dfa['distinct']} states)")
+            trd = os.path.join(tmp, "dyn.ndjson")
+            run_driver(vdrive, ["dyn-run", "-out", trd], timeout=600)
+            n4, bad4, _ = validate_traces(tmp, trd, "dyn_traces.ndjson", "L4DynTrace.tla", "L4DynTrace.cfg", max_shards=1)
+            for b in bad4:
+                log(f"OBSERVATION placeholder upstream: {'; '.join(b['clauses'])} (scenario {b['id']})")
+            log(f"{n4} scenarios of the real proxy handler dialling '{{l4.http.host}}:port' replayed through the model by TLC, {len(bad4)} with observations, "
+                f"{sum(1 for b in bad4 if any(c.startswith('D0') for c in b['clauses']))} where the real handler differs from the model")
         return 0
     except Inconclusive as e:
         log(f"INCONCLUSIVE: {e}")
